@@ -11,6 +11,8 @@ import (
 func init() {
 	f := "internal/loader/buildtag/expr.go"
 	register(&Property{ID: "C24", Run: runC24, Mutants: []Mutant{
+		{Name: "negation printed without parentheses around ||", File: f, Old: "\tcase *AndExpr, *OrExpr:\n\t\ts = \"(\" + s + \")\"", New: "\tcase *AndExpr:\n\t\ts = \"(\" + s + \")\"", Expect: "print-precedence :: NotExpr.String"},
+		{Name: "build line searched outside the doc comment only for undocumented files", File: "internal/loader/loader.go", Old: "\t}\n\tif buildExpr == nil {\n\t\tfor _, comment := range f.Comments {", New: "\t} else {\n\t\tfor _, comment := range f.Comments {", Expect: "build-line-search"},
 		{Name: "AndExpr evaluates as or", File: f, Old: "\treturn xok && yok", New: "\treturn xok || yok", Expect: "evaluator-truth-table :: AndExpr"},
 		{Name: "NotExpr loses the negation", File: f, Old: "\treturn !x.X.Eval(ok)", New: "\treturn x.X.Eval(ok)", Expect: "evaluator-truth-table :: NotExpr"},
 		{Name: "OrExpr ignores its right operand", File: f, Old: "\treturn xok || yok", New: "\treturn xok || (yok && false)", Expect: "evaluator-truth-table :: OrExpr"},
@@ -81,6 +83,7 @@ func runC24(c *Ctx) {
 		return
 	}
 	const rT, rG, rI, rP, rM = "evaluator-truth-table", "grammar-shape", "inclusion-polarity", "tag-predicate", "malformed-rejected"
+	c24Extra(c, p, bt, ld)
 
 	// (1) truth tables
 	atomOf := func(e ast.Expr) string {
